@@ -325,3 +325,51 @@ theorem C01_pair_nonvacuous :
   ⟨PPInv_init demoSession demoPeer _ _ 2 rfl rfl rfl rfl rfl rfl rfl rfl, demo_pair_run _ _, by decide, demo_frameB2⟩
 
 end Ggrs
+
+namespace Ggrs
+
+/-- Two timelines whose rows carry the same input values for the first `n` players up to frame `F`
+replay to the same state, for a game whose step only reads those values. -/
+theorem replay_congr_vals {G : Type} (step : G → List (Input × InputStatus) → G) (g0 : G) (n : Nat)
+    (hstep : ∀ g r r', (∀ p, p < n → (r.getD p default).1 = (r'.getD p default).1) → step g r = step g r')
+    (R R' : Nat → List (Input × InputStatus)) :
+    ∀ F : Nat, (∀ f, f < F → ∀ p, p < n → ((R f).getD p default).1 = ((R' f).getD p default).1) →
+      replay step g0 R F = replay step g0 R' F := by
+  intro F
+  induction F with
+  | zero => intro _; rfl
+  | succ k ih =>
+    intro h
+    simp only [replay]
+    rw [ih (fun f hf => h f (by omega))]
+    exact hstep _ _ _ (h k (by omega))
+
+/-- **C01 across two peers: game states.** In the setting of `C01_agree_two_peers`, let every one of
+the `n` players be owned by exactly one of the two sessions and let `F` be a frame count such that
+both sessions have simulated, and hold every player's real input for, every frame below `F` (so `F - 1`
+is a mutually confirmed frame). Then the serial replays of the two games' timelines up to `F` —
+which by `C01_state_replay` ARE the two games' states at frame `F` — are the same state, for every
+deterministic game whose step reads the input values. -/
+theorem C01_states_agree_two_peers {G : Type} (step : G → List (Input × InputStatus) → G) (g0 : G)
+    (x y : (P2P × TLState) × (P2P × TLState)) (h0 : PPInv x) (hrun : PStar x y)
+    (nowA nowB : Nat) (sA' sB' : P2P) (reqsA reqsB : List Request)
+    (hcA : y.1.1.advanceRollbackFrame nowA [] = .ok (sA', reqsA))
+    (hcB : y.2.1.advanceRollbackFrame nowB [] = .ok (sB', reqsB))
+    (n : Nat) (hnA : y.1.1.sync.queues.length = n) (hnB : y.2.1.sync.queues.length = n)
+    (hown : ∀ p, p < n → (p ∈ y.1.1.localPlayerHandles ∧ p ∉ y.2.1.localPlayerHandles) ∨
+      (p ∈ y.2.1.localPlayerHandles ∧ p ∉ y.1.1.localPlayerHandles))
+    (hstep : ∀ g r r', (∀ p, p < n → (r.getD p default).1 = (r'.getD p default).1) → step g r = step g r')
+    (F : Nat) (hFA : (F : Int) ≤ y.1.1.sync.currentFrame) (hFB : (F : Int) ≤ y.2.1.sync.currentFrame)
+    (hheldA : ∀ p, p < n → (F : Int) - 1 ≤ (rget y.1.1.sync.queues p).lastAddedFrame)
+    (hheldB : ∀ p, p < n → (F : Int) - 1 ≤ (rget y.2.1.sync.queues p).lastAddedFrame) :
+    ∃ (r1A r1B : List Request),
+      (reqsA = r1A ∨ ∃ ins, reqsA = r1A ++ [.advance ins]) ∧ (reqsB = r1B ∨ ∃ ins, reqsB = r1B ++ [.advance ins]) ∧
+      replay step g0 (execReqs y.1.2 r1A).R F = replay step g0 (execReqs y.2.2 r1B).R F := by
+  obtain ⟨r1A, r1B, ha, hb, hag⟩ := C01_agree_two_peers x y h0 hrun nowA nowB sA' sB' reqsA reqsB hcA hcB
+  refine ⟨r1A, r1B, ha, hb, replay_congr_vals step g0 n hstep _ _ F ?_⟩
+  intro f hf p hp
+  exact hag p (hown p hp) (by rw [hnA]; exact hp) (by rw [hnB]; exact hp) f (by omega) (by omega)
+    (by have := hheldA p hp; omega) (by have := hheldB p hp; omega)
+
+end Ggrs
+
